@@ -12,6 +12,7 @@ import (
 	"sort"
 	"strconv"
 	"strings"
+	"time"
 
 	appsv1 "k8s.io/api/apps/v1"
 	corev1 "k8s.io/api/core/v1"
@@ -50,6 +51,10 @@ type k8Case struct {
 	UpdFail  bool    `json:"updfail"`
 	Pvcs     []k8Pvc `json:"pvcs"`
 	Sets     []k8Set `json:"sets"`
+	Steps    []struct {
+		St  k8Set `json:"st"`
+		Adv int   `json:"adv"`
+	} `json:"steps"`
 }
 type k8Shard struct {
 	Ord   int  `json:"ord"`
@@ -57,12 +62,13 @@ type k8Shard struct {
 	Ready bool `json:"ready"`
 }
 type k8Obs struct {
-	Shards   []k8Shard `json:"shards"`
-	Replicas int32     `json:"replicas"`
-	Pvcs     []k8Pvc   `json:"pvcs"`
-	Writes   int       `json:"writes"`
-	Managers []string  `json:"managers"`
-	Err      string    `json:"err,omitempty"`
+	Shards      []k8Shard `json:"shards"`
+	Replicas    int32     `json:"replicas"`
+	Pvcs        []k8Pvc   `json:"pvcs"`
+	Writes      int       `json:"writes"`
+	Managers    []string  `json:"managers"`
+	Coordinated []bool    `json:"coordinated"`
+	Err         string    `json:"err,omitempty"`
 }
 
 const k8NS = "monitoring"
@@ -114,7 +120,7 @@ func cmdK8s(args []string) error {
 }
 
 func runK8sCase(c *k8Case) k8Obs {
-	o := k8Obs{Pvcs: []k8Pvc{}, Managers: []string{}, Shards: []k8Shard{}}
+	o := k8Obs{Coordinated: []bool{}, Pvcs: []k8Pvc{}, Managers: []string{}, Shards: []k8Shard{}}
 	switch c.Kind {
 	case "scale", "list":
 		st := k8Set{Name: "web", Replicas: 2, Updated: 2, Ready: 2}
@@ -227,6 +233,31 @@ func runK8sCase(c *k8Case) k8Obs {
 			}
 			return o.Pvcs[a].Ord < o.Pvcs[b].Ord
 		})
+	case "replicaseq":
+		// one StatefulSet, its status changing between calls of Replicas() while minutes pass (the manager's memory is aged)
+		o.Coordinated = []bool{}
+		st0 := k8Set{Name: "a"}
+		cli := fake.NewSimpleClientset(k8Sts("a", 2, 0, st0))
+		rm := kshard.NewReplicasManager(cli, k8NS, "app=kvass", 8080, false, quietLog())
+		for _, stp := range c.Steps {
+			rm.VerifAge(time.Duration(stp.Adv) * time.Minute)
+			cur, err := cli.AppsV1().StatefulSets(k8NS).Get(context.TODO(), "a", metav1.GetOptions{})
+			if err != nil {
+				o.Err = err.Error()
+				return o
+			}
+			cur.Status = appsv1.StatefulSetStatus{Replicas: stp.St.Replicas, UpdatedReplicas: stp.St.Updated, ReadyReplicas: stp.St.Ready}
+			if _, err := cli.AppsV1().StatefulSets(k8NS).UpdateStatus(context.TODO(), cur, metav1.UpdateOptions{}); err != nil {
+				o.Err = err.Error()
+				return o
+			}
+			ms, err := rm.Replicas()
+			if err != nil {
+				o.Err = err.Error()
+				return o
+			}
+			o.Coordinated = append(o.Coordinated, len(ms) == 1)
+		}
 	case "replicas":
 		var objs []runtime.Object
 		for _, s := range c.Sets {
